@@ -33,8 +33,7 @@ pub(super) fn generate_enum_definitions<'a, 'schema: 'a>(
             .variants
             .iter()
             .map(|v| {
-                // Escape keywords after normalization: `self` normalizes to the keyword `Self`.
-                let name = super::shared::keyword_replace(normalization.enum_variant(v.as_str()));
+                let name = variant_name(normalization.enum_variant(v.as_str()));
                 let name = Ident::new(&name, Span::call_site());
 
                 quote!(#name)
@@ -47,7 +46,7 @@ pub(super) fn generate_enum_definitions<'a, 'schema: 'a>(
             .variants
             .iter()
             .map(|v| {
-                let name = super::shared::keyword_replace(normalization.enum_variant(v));
+                let name = variant_name(normalization.enum_variant(v));
                 let v = Ident::new(&name, Span::call_site());
 
                 quote!(#name_ident::#v)
@@ -86,4 +85,19 @@ pub(super) fn generate_enum_definitions<'a, 'schema: 'a>(
                 }
             }
         }})
+}
+
+/// The Rust identifier of the variant for a schema value.
+///
+/// Keywords are escaped after normalization (`self` normalizes to the keyword `Self`), and so is
+/// `Other`, the name of the catch-all variant every generated enum has: a schema value `Other`
+/// (or `OTHER` / `other` under `normalization = "rust"`) becomes the variant `Other_`. The string
+/// on the wire stays the schema's.
+fn variant_name(normalized: std::borrow::Cow<'_, str>) -> std::borrow::Cow<'_, str> {
+    let name = super::shared::keyword_replace(normalized);
+    if name == "Other" {
+        "Other_".into()
+    } else {
+        name
+    }
 }
